@@ -1809,6 +1809,9 @@ func Expire() int {
 	}
 
 	count := count()
+	if count == 0 {
+		return 0
+	}
 	fair := low / int64(count)
 
 	bigcount := 0
@@ -1823,6 +1826,10 @@ func Expire() int {
 		return true
 	})
 
+	if bigcount == 0 {
+		// the torrents have changed since we sampled the memory usage
+		return 0
+	}
 	fair2 := (low - smallspace) / int64(bigcount)
 
 	Range(func(h hash.Hash, t *Torrent) bool {
